@@ -177,19 +177,11 @@ class Context:
 
         def proto_hasOwnProperty(this_val, *args):
             prop = to_string(args[0]) if args else ""
-            if isinstance(this_val, JSArray):
-                # For arrays, check both properties and array indices
-                try:
-                    idx = int(prop)
-                    if 0 <= idx < len(this_val._elements) and str(idx) == prop:
-                        return True
-                except (ValueError, TypeError):
-                    pass
-                return (
-                    this_val.has(prop)
-                    or prop in this_val._getters
-                    or prop in this_val._setters
-                )
+            vm = self._current_vm
+            if vm is not None and isinstance(this_val, (JSObject, JSFunction)):
+                # elements and length of arrays, properties of functions,
+                # data and accessor properties of everything else
+                return vm._has_own_property(this_val, prop)
             if isinstance(this_val, JSObject):
                 return (
                     this_val.has(prop)
